@@ -1,7 +1,7 @@
 (* C09 -- Schedules conclude, repeat and report exhaustion exactly as documented
    Property theorems only: each proof is one application of a lemma proved in Proofs/, followed by Print Assumptions. *)
 From Coq Require Import ZArith List Bool.
-From CS Require MSTerm OnlineFlags Flags RevConv RevBridge4 RevolveRun PassRepeat Online DiskRun DiskBridge3 HRevRun HRevTop GenLang GenBasic GenLang2 GenTwo GenLang3 GenMulti GenLang4 GenConv.
+From CS Require MSTerm OnlineFlags Flags RevConv RevBridge4 RevolveRun PassRepeat Online DiskRun DiskBridge3 HRevRun HRevTop GenLang GenBasic GenLang2 GenTwo GenLang3 GenMulti GenLang4 GenConv GenLang5 GenMixed.
 From CS Require Import Actions NAdvance Multistage Exec Sched RunFacts Projections BasicInv MultistageRun AllocTotal TLBridge MixBridge.
 Import ListNotations.
 Open Scope Z_scope.
@@ -55,6 +55,23 @@ Theorem C09_revolve_family_converter_is_source :
 Proof. exact (@GenConv.conv_from_start). Qed.
 Print Assumptions C09_revolve_family_converter_is_source.
 End M_C09_revolve_family_converter_is_source.
+
+(* THE MODEL OF MixedCheckpointSchedule IS THE SOURCE: GenMixed.mixed_prog_model is the program (generator language GenLang5: the stack snapshots of (step type, n0, n1) triples, the set snapshot_n, the planner read as a function, step-type / integer / boolean locals, break) that harness/translate.py produces from MixedCheckpointSchedule._iterator; Gen/MixedGen.v re-translates the current source on every run and proves it equal to that term by conversion.  For every planner the constructor can select (the table of mixed_steps_tabulation or mixed_step_memoization behind its cache) and under EVERY history of next() and finalize(k) calls, resuming that program request by request from the freshly constructed object gives exactly the observations (outcome, n, r, max_n, is_exhausted) of the schedule object of Model/Sched.v (hand-written machine Mixed.resume) -- up to the first exception the latter raises (raise_free: none on the documented domain, by the Mixed run theorems of this file); the invariant carried through is that the set snapshot_n holds exactly the distinct first components of the stack (GenMixed.sinv), which is why the model needs no set *)
+Module M_C09_mixed_source_is_model.
+Import GenMixed.
+Theorem C09_mixed_source_is_model :
+  forall (n s : Z) (sg : Actions.storage) (tab : bool) (hist : list Online.op) (sch : Sched.sched),
+         Sched.construct (Sched.PMixed n s sg tab) = Actions.Ok sch ->
+         GenConv.raise_free (GenMulti.srun_ops sch hist) ->
+         exists s' : Z,
+           Mixed.construct n s sg = Actions.Ok s' /\
+           (forall f : Z -> Z -> Actions.res Mixed.plan_t,
+            planner n s' tab = Actions.Ok f ->
+            grun_ops (mcfg n s' sg f) [GenLang5.FS mixed_prog_model] (g_init n) hist =
+            GenMulti.srun_ops sch hist).
+Proof. exact (@GenMixed.mixed_from_start). Qed.
+Print Assumptions C09_mixed_source_is_model.
+End M_C09_mixed_source_is_model.
 
 (* FLAGS, all thirteen classes, every parameter tuple the constructor accepts, every history of next() / finalize(k) requests (ops), any executor parameters: before the first request is_exhausted = is_running = False; after every next() is_running = True; is_exhausted after a request = (the final action of the class has been yielded so far) -- final_action: EndForward for None, EndReverse for the offline classes and SingleDisk(move), none for SingleMemory, SingleDisk(copy), TwoLevel; no action is yielded once the final action has been seen (only StopIteration / an exception), and finalize never changes the flag. flags_hist is the trace rule, defined in Proofs/OnlineFlags.v *)
 Module M_C09_flags.
